@@ -157,9 +157,9 @@ ALL = ["C%02d" % i for i in range(1, 21)]
 ADDENDA = {
     "C01": (" Workloads also contain lease batches that name no live lease (a leaked write transaction after such a batch loses every later acknowledged write), and the redelivery probe waits for leases extended just before the kill.", ""),
     "C02": (" Monitor soundness: Properties/C02.v also proves that the executable monitor P_C02 itself holds on every trace of the model (both flavours, every configuration, history and oracle; premise: no successful enqueue re-uses a stored id), so the monitor evaluated on the Go stores demands nothing the model does not deliver. The stores under test are built by run.go's own newQueueStore; scenario fragments (batch lease + extend + expiry, restart with live leases, nack schedule, retention ages) run before the random histories.", ""),
-    "C03": (" Properties/C03conc.v: an overlap monitor over concurrent histories (calls with invocation/response stamps) is proved to raise no alarm on any linearizable history of Model/Queue.step; lib/c03conc.py drives 8-16 goroutines against the real stores, the pull HTTP handler, the worker gRPC service and a real PushDispatcher and evaluates the monitor in Coq. P_C03 is proved to hold on every model trace (P_C03_holds_on_model).", " The note above about sequential histories is superseded for C03: atomicity of the store methods is now exercised by the concurrent stress (a mutation releasing the mutex between select and lease is caught on every run), not only assumed."),
+    "C03": (" Properties/C03conc.v: an overlap monitor over concurrent histories (calls with invocation/response stamps) is proved to raise no alarm on any linearizable history of Model/Queue.step; lib/c03conc.py drives 8-16 goroutines against the real stores, the pull HTTP handler, the worker gRPC service and a real PushDispatcher and evaluates the monitor in Coq. P_C03 is proved to hold on every model trace (P_C03_holds_on_model). Lease TTLs that push now+ttl beyond the int64 nanosecond horizon (outside what the correspondence can feed the integer model) are judged on both stores directly.", " The note above about sequential histories is superseded for C03: atomicity of the store methods is now exercised by the concurrent stress (a mutation releasing the mutex between select and lease is caught on every run), not only assumed."),
     "C04": (" Pull layer: Model/PullOps.v + Properties/C04pull.v (14 theorems) model the HTTP and gRPC handlers in front of the store - idempotent-answer cache (key, exclusive TTL window, capacity, refresh), status mapping, batch partition, dequeue clamps - compared call by call with the real handlers on both backends. P_C04 is proved to hold on every model trace; a lease batch settles exactly the stored messages whose current lease it presents (C04_batch_counts_exact).", ""),
-    "C05": (" P_C05 is proved to hold on every model trace (must-offer <= offered <= may-offer per message; SQLite flavour under a monotone clock via the swept invariant).", ""),
+    "C05": (" A consumer already waiting inside Dequeue(MaxWait>0) when a message becomes ready (lease runs out, nack delay matures, enqueue) is judged on both stores directly (the model has no waiting calls). P_C05 is proved to hold on every model trace (must-offer <= offered <= may-offer per message; SQLite flavour under a monotone clock via the swept invariant).", ""),
     "C06": (" Sends are also counted ON THE WIRE: the real HTTPDeliverer with a real http.Transport delivers to a raw TCP target that reads the message and drops a re-used keep-alive connection; one attempt must be one send.", " Known findings wire-replay:producer-header:{Idempotency-Key,X-Idempotency-Key}: net/http re-sends such a POST inside one attempt."),
     "C07": (" Header values include the valid UTF-8 that encoders treat specially (tag/format characters outside the BMP, zero-width, BOM, U+2028/9, C1 controls, non-characters).", ""),
     "C08": (" Timestamps further from the clock than a time.Duration can express, and final forward-auth statuses below 200 written on the raw connection, are part of the request families.", ""),
